@@ -440,7 +440,9 @@ Record rstate := mkR {
   r_isinit : N -> bool;                 (* Value._is_initializer *)
   r_isio : N -> bool;                   (* Value._is_graph_input or _is_graph_output *)
   r_vgraph : N -> option N;             (* Value._graph *)
-  r_prod : N -> bool                    (* Value.producer() is not None *)
+  r_prod : N -> bool;                   (* Value.producer() is not None *)
+  r_const : N -> bool                   (* Value.const_value is not None; False for a 'pending' initializer.
+                                           rename_values never looks at it (graph.initializers.add does not) *)
 }.
 
 (* ordered_pairs / target_by_value: first target per value, conflict -> ValueError *)
@@ -516,7 +518,7 @@ Definition r_pop (g : N) (v : N) (s : rstate) : rres :=
       | Some u =>
           let isinit' := upd (r_isinit s) u false in
           let vg' := if r_isio s u then r_vgraph s else upd (r_vgraph s) u None in
-          (mkR (r_vn s) (set_dict g (dremove k d) (r_inits s)) isinit' (r_isio s) vg' (r_prod s), Ok tt)
+          (mkR (r_vn s) (set_dict g (dremove k d) (r_inits s)) isinit' (r_isio s) vg' (r_prod s) (r_const s), Ok tt)
       end
   end.
 (* graph.initializers.add(value) = initializers[value.name] = value (GraphInitializers.__setitem__) *)
@@ -531,20 +533,20 @@ Definition r_add (g : N) (v : N) (s : rstate) : rres :=
       let s1 := match dlookup k d with
                 | Some old =>
                     mkR (r_vn s) (r_inits s) (upd (r_isinit s) old false) (r_isio s)
-                        (if r_isio s old then r_vgraph s else upd (r_vgraph s) old None) (r_prod s)
+                        (if r_isio s old then r_vgraph s else upd (r_vgraph s) old None) (r_prod s) (r_const s)
                 | None => s end in
       match r_vgraph s1 v with
       | Some g' => if N.eqb g' g then
                      (mkR (r_vn s1) (set_dict g (match dlookup k d with
                                                 | Some _ => map (fun p => if name_eqb (fst p) k then (k, v) else p) d
                                                 | None => d ++ [(k, v)] end) (r_inits s1))
-                          (upd (r_isinit s1) v true) (r_isio s1) (upd (r_vgraph s1) v (Some g)) (r_prod s1), Ok tt)
+                          (upd (r_isinit s1) v true) (r_isio s1) (upd (r_vgraph s1) v (Some g)) (r_prod s1) (r_const s1), Ok tt)
                    else (s1, Raise ValueError)
       | None =>
           (mkR (r_vn s1) (set_dict g (match dlookup k d with
                                      | Some _ => map (fun p => if name_eqb (fst p) k then (k, v) else p) d
                                      | None => d ++ [(k, v)] end) (r_inits s1))
-               (upd (r_isinit s1) v true) (r_isio s1) (upd (r_vgraph s1) v (Some g)) (r_prod s1), Ok tt)
+               (upd (r_isinit s1) v true) (r_isio s1) (upd (r_vgraph s1) v (Some g)) (r_prod s1) (r_const s1), Ok tt)
       end
   end.
 
@@ -573,9 +575,9 @@ Fixpoint r_renames (ps : list (N * name)) (s : rstate) : rres :=
       if r_isinit s v then
         match set_vname v n (r_vn s) (r_inits s) with
         | Raise e => (s, Raise e)
-        | Ok (vn', inits') => r_renames r (mkR vn' inits' (r_isinit s) (r_isio s) (r_vgraph s) (r_prod s))
+        | Ok (vn', inits') => r_renames r (mkR vn' inits' (r_isinit s) (r_isio s) (r_vgraph s) (r_prod s) (r_const s))
         end
-      else r_renames r (mkR (upd (r_vn s) v (Some n)) (r_inits s) (r_isinit s) (r_isio s) (r_vgraph s) (r_prod s))
+      else r_renames r (mkR (upd (r_vn s) v (Some n)) (r_inits s) (r_isinit s) (r_isio s) (r_vgraph s) (r_prod s) (r_const s))
   end.
 
 Definition rename_values (vs : list N) (ns : list name) (s : rstate) : rres :=
@@ -652,18 +654,19 @@ Definition b_agree (c : b_case) : bool :=
   && list_eqb N.eqb (map (f_nx s) nids) enx.
 
 (* (C) rename_values: outcome and the whole observable state afterwards (also after a Raise) *)
-Definition r_obs := (list (option name) * list (N * idict) * list bool * list (option N))%type.
+Definition r_obs := (list (option name) * list (N * idict) * list bool * list (option N) * list bool)%type.
 Definition r_observe (s : rstate) (vids : list N) : r_obs :=
-  (map (r_vn s) vids, r_inits s, map (r_isinit s) vids, map (r_vgraph s) vids).
+  (map (r_vn s) vids, r_inits s, map (r_isinit s) vids, map (r_vgraph s) vids, map (r_const s) vids).
 Definition r_obs_eqb (a b : r_obs) : bool :=
-  let '(n1, i1, f1, g1) := a in let '(n2, i2, f2, g2) := b in
-  list_eqb oname_eqb n1 n2 && inits_eqb i1 i2 && list_eqb Bool.eqb f1 f2 && list_eqb (option_eqb N.eqb) g1 g2.
+  let '(n1, i1, f1, g1, c1) := a in let '(n2, i2, f2, g2, c2) := b in
+  list_eqb oname_eqb n1 n2 && inits_eqb i1 i2 && list_eqb Bool.eqb f1 f2 && list_eqb (option_eqb N.eqb) g1 g2
+  && list_eqb Bool.eqb c1 c2.
 Definition c_case := (list (N * option name) * list (N * idict) * list (N * bool) * list (N * bool)
-                      * list (N * option N) * list (N * bool)
+                      * list (N * option N) * list (N * bool) * list (N * bool)
                       * list N * list name * list N * (res unit * r_obs))%type.
 Definition c_agree (c : c_case) : bool :=
-  let '(vn, inits, isinit, isio, vgraph, prod, vs, ns, vids, (er, eobs)) := c in
+  let '(vn, inits, isinit, isio, vgraph, prod, hasconst, vs, ns, vids, (er, eobs)) := c in
   let s0 := mkR (of_alist None vn) inits (of_alist false isinit) (of_alist false isio)
-                (of_alist None vgraph) (of_alist false prod) in
+                (of_alist None vgraph) (of_alist false prod) (of_alist false hasconst) in
   let '(s, r) := rename_values vs ns s0 in
   res_eqb (fun _ _ => true) r er && r_obs_eqb (r_observe s vids) eobs.
